@@ -28,7 +28,8 @@ TRUSTED = [
     "harness/export.py (LoopIR -> s-expression, 1:1 structural dump) and harness/progen.py / c03_gen.py (generators of source text)",
     "z3 4.8.12 as the oracle for validity of each VC (harness/c03_vc.py renders Bounds.VC.vc to SMT-LIB: Int/Bool constants, div/mod for / and % by positive literals)",
     "harness/c03_search.py: bounded input family, static call-aliasing scan, Bounds.Locate (locate, locate_mem) used only to tag failures and to detect aliasing dynamically",
-    "exo's own oracle: pysmt + z3 inside CheckBounds (its answers are what is being tested)",
+    "exo's own oracle: pysmt + z3 inside CheckBounds (its answers are what is being tested); the harness memoises "
+    "pysmt.factory.Factory per environment (performance only: same solver, exo's code untouched)",
 ]
 
 
@@ -278,13 +279,35 @@ def stale(target, sources) -> bool:
     return any(src.exists() and src.stat().st_mtime > t for src in sources)
 
 
+def memoize_pysmt_factory():
+    """Performance shim, pysmt only: exo's _get_smt_solver builds a fresh pysmt Factory for every CheckBounds just to
+    list the installed solvers, which re-probes every solver module (half of the front-end time).  Memoising the
+    Factory per pysmt environment leaves exo's code and the chosen solver unchanged."""
+    import pysmt.factory as pf
+
+    if getattr(pf.Factory, "_c03_memo", False):
+        return
+    orig, cache = pf.Factory, {}
+
+    def factory(env, *a, **k):
+        key = (id(env), a, tuple(sorted(k.items())))
+        if key not in cache:
+            cache[key] = orig(env, *a, **k)
+        return cache[key]
+
+    factory._c03_memo = True
+    pf.Factory = factory
+
+
 def run(ck):
+    memoize_pysmt_factory()
     ck.coq_build("Core", props=[])
     if stale(common.COQ / "Core" / "_build" / "interp", [common.COQ / "Core" / "ocaml" / "interp.ml", common.COQ / "Core" / "driver.ml"]):
         ck.extract("Core")
     ck.coq_build("Bounds")
     if stale(common.COQ / "Bounds" / "_build" / "bounds", [common.COQ / "Bounds" / "_build" / "bounds.ml", common.COQ / "Bounds" / "driver.ml"]):
         ck.extract("Bounds")
+    ck.log("build done at %.1fs" % (time.time() - ck.t0))
     c = C03(ck)
     rng = ck.rng
     budget = ck.n(105, 900)
@@ -310,6 +333,7 @@ def run(ck):
             k += 1
     finally:
         c.close()
+    ck.log("streams done at %.1fs (loop %.1fs)" % (time.time() - ck.t0, time.time() - t0))
     st = c.runner.stats
     ck.cov["accept_reject_matrix"] = {"%s/%s" % k: v for k, v in sorted(c.matrix.items())}
     ck.cov["reject_kinds"] = c.reject_kinds
